@@ -170,9 +170,9 @@ def reset_library_globals() -> None:
     addr.id_to_address.cache_clear()
     addr.is_valid_dev_id.cache_clear()
     try:
-        from ramses_tx import parsers
+        from ramses_tx import message
 
-        parsers.re_compile_re_match.cache_clear()  # type: ignore[attr-defined]
+        message.re_compile_re_match.cache_clear()
     except Exception:  # pragma: no cover - name may move
         pass
     tr._global_sync_cycles.clear()
